@@ -334,7 +334,10 @@ def real_tags(text):
     import yaml
     from jsonargparse._loaders_dumpers import get_yaml_default_loader
 
-    d = yaml.SafeDumper(io.StringIO()).resolve(yaml.ScalarNode, text, (True, False)).rsplit(":", 1)[-1]
+    import jsonargparse._loaders_dumpers as _ld
+
+    get_dumper = getattr(_ld, "get_yaml_default_dumper", None)  # the class yaml_dump hands to PyYAML (since f3cd0b1)
+    d = (get_dumper() if get_dumper else yaml.SafeDumper)(io.StringIO()).resolve(yaml.ScalarNode, text, (True, False)).rsplit(":", 1)[-1]
     ldr = get_yaml_default_loader()("")
     try:
         ltag = ldr.resolve(yaml.ScalarNode, text, (True, False)).rsplit(":", 1)[-1]
@@ -1052,7 +1055,8 @@ def run(rep, tier, rnd, scratch):
     expected_branches = {"160-bool", "162-not-integer", "164-cast-ValueError", "164-cast-TypeError", "164-cast-OverflowError", "166-restriction", "94-accepted"}
     if not expected_branches <= set(nv["alg_branch"]) or not {"563-loader-crash", "582-first-attempt", "590-second-attempt", "596-rejected", "596-rejected-not-text", "escapes-OverflowError"} <= set(nv["parse_branch"]):
         machinery_failure(PID, f"vacuity: Alg branches exercised by the instance: {sorted(nv['alg_branch'])} / {sorted(nv['parse_branch'])}")
-    if not {"float-serializer", "yaml-str-as-float", "loader-crash", "none"} <= set(nv["reg_deviation"]):
+    # "yaml-str-as-float" was a named deviation until the repair f3cd0b1; the spec no longer predicts it
+    if not {"float-serializer", "loader-crash", "none"} <= set(nv["reg_deviation"]):
         machinery_failure(PID, f"vacuity: deviations in the instance: {sorted(nv['reg_deviation'])}")
     if cov:
         rep.extra["tlc_coverage"] = {k: v for k, v in mc.coverage.items()}
